@@ -111,9 +111,11 @@ class PathInfo:
     def after(self, ev):
         return self.steps[self.index(ev) + 1:]
 
-    def feasible(self):
+    def feasible(self, stable=()):
         """Drop paths on which a resolved branch condition is a constant contradicting the edge,
-        or two relational assumptions over the same resolved operands contradict."""
+        or two relational assumptions over the same resolved operands contradict.
+        stable: names of struct fields the rule declares constant during the function
+        (configuration fields); conditions reading only those (and locals) may contradict too."""
         sw = {}
         for c, lab, ev in self.switches():
             if lab != 'default':
@@ -136,11 +138,24 @@ class PathInfo:
                 # (keep) unless it is made of locals/calls only
                 if '->' not in key and '[' not in key and '*(' not in key:
                     return False
+                if stable and _only_stable_memory(atom, stable):
+                    return False
             facts.setdefault(key, truth)
         return True
 
 
-def all_paths(func, feasible_only=True, inline=None, inline_names=None, **kw):
+def _only_stable_memory(atom, stable):
+    for x in atom.walk():
+        if x.k == 'mem' and x.n not in stable:
+            # a member access is fine when it is only the path to a stable field (a->b->stable)
+            if not any(y.k == 'mem' and y.n in stable and x in list(y.walk())[1:] for y in atom.walk()):
+                return False
+        if x.k in ('idx', 'call') or (x.k == 'un' and x.op == '*'):
+            return False
+    return True
+
+
+def all_paths(func, feasible_only=True, inline=None, inline_names=None, stable=(), **kw):
     """inline: a facts.Unit — calls to its small functions are expanded into the paths."""
     out = []
     import itertools
@@ -163,7 +178,7 @@ def all_paths(func, feasible_only=True, inline=None, inline_names=None, **kw):
                 inl = Inliner(inline, dry.names); inl._paths = dry._paths; inl.choice = ch
                 pis.append(PathInfo(func, p, inliner=_guard(inl, func)))
         for pi in pis:
-            if feasible_only and not pi.feasible():
+            if feasible_only and not pi.feasible(stable):
                 continue
             out.append(pi)
     return out
